@@ -4,6 +4,7 @@ package c11
 import (
 	"encoding/json"
 	"fmt"
+	"github.com/thushan/olla/internal/config"
 	"github.com/thushan/olla/verifharness/hx"
 	"io"
 	"net/http"
@@ -40,6 +41,10 @@ type Case struct {
 	EPs    []EP   `json:"eps"`
 	Path   string `json:"path"` // remaining path, no leading slash
 	Method string `json:"method"`
+	// Strategy: "" = shipped default; otherwise "<strategy>/<fallback>[/refresh]" of model routing.
+	// Model: the request names a model that no endpoint lists, so that model routing falls back.
+	Strategy string `json:"strategy,omitempty"`
+	Model    bool   `json:"model,omitempty"`
 }
 
 var (
@@ -105,10 +110,18 @@ var (
 	rigs  = map[string]*rigT{}
 )
 
-func getRig(engine string) (*rigT, error) {
+func getRig(engine string, strategy ...string) (*rigT, error) {
 	rigMu.Lock()
 	defer rigMu.Unlock()
-	if r, ok := rigs[engine]; ok {
+	strat := ""
+	if len(strategy) > 0 {
+		strat = strategy[0]
+	}
+	key := engine
+	if strat != "" {
+		key += "|" + strat
+	}
+	if r, ok := rigs[key]; ok {
 		return r, nil
 	}
 	r := &rigT{}
@@ -120,12 +133,22 @@ func getRig(engine string) (*rigT, error) {
 		r.be = append(r.be, b)
 		r.dead = append(r.dead, fmt.Sprintf("http://127.0.0.1:%d", hx.FreePort()))
 	}
-	s, err := stack.Boot(stack.Options{Engine: engine, Balancer: "round-robin"})
+	opts := stack.Options{Engine: engine, Balancer: "round-robin"}
+	if strat != "" {
+		parts := strings.Split(strat, "/")
+		opts.Mutate = func(cfg *config.Config) {
+			cfg.ModelRegistry.RoutingStrategy.Type = parts[0]
+			cfg.ModelRegistry.RoutingStrategy.Options.FallbackBehavior = parts[1]
+			cfg.ModelRegistry.RoutingStrategy.Options.DiscoveryRefreshOnMiss = len(parts) > 2
+			cfg.ModelRegistry.RoutingStrategy.Options.DiscoveryTimeout = 2 * time.Second
+		}
+	}
+	s, err := stack.Boot(opts)
 	if err != nil {
 		return nil, err
 	}
 	r.s = s
-	rigs[engine] = r
+	rigs[key] = r
 	return r, nil
 }
 
@@ -186,7 +209,7 @@ func pathsFor(prefix string) []string {
 func runCase(c Case) []ev.Violation {
 	var vs []ev.Violation
 	bad := func(sig, f string, a ...any) { vs = append(vs, ev.Violation{Sig: sig, Detail: fmt.Sprintf(f, a...)}) }
-	r, err := getRig(c.Engine)
+	r, err := getRig(c.Engine, c.Strategy)
 	if err != nil {
 		rec.Inconclusive("boot: " + err.Error())
 		return nil
@@ -197,7 +220,15 @@ func runCase(c Case) []ev.Violation {
 		rec.Inconclusive(fmt.Sprintf("deploy %+v: %v", c.EPs, err))
 		return nil
 	}
-	req, _ := http.NewRequest(c.Method, r.s.BaseURL+"/olla/"+c.Prefix+"/"+c.Path, strings.NewReader(`{"prompt":"hi","messages":[{"role":"user","content":"hi"}]}`))
+	reqBody := `{"prompt":"hi","messages":[{"role":"user","content":"hi"}]}`
+	if c.Model {
+		reqBody = `{"model":"verif-model-nobody-lists","prompt":"hi","messages":[{"role":"user","content":"hi"}]}`
+		rec.Class("request-names-unlisted-model")
+	}
+	if c.Strategy != "" {
+		rec.Class("strategy=" + c.Strategy)
+	}
+	req, _ := http.NewRequest(c.Method, r.s.BaseURL+"/olla/"+c.Prefix+"/"+c.Path, strings.NewReader(reqBody))
 	req.Header.Set("Content-Type", "application/json")
 	resp, err := client.Do(req)
 	if err != nil {
@@ -234,7 +265,7 @@ func runCase(c Case) []ev.Violation {
 		rec.Class("deployment-with-healthy-incompatible-type")
 	}
 	rec.Class("prefix=" + c.Prefix)
-	desc := fmt.Sprintf("engine=%s %s /olla/%s/%s with endpoints %+v -> status %d", c.Engine, c.Method, c.Prefix, c.Path, c.EPs, resp.StatusCode)
+	desc := fmt.Sprintf("engine=%s strategy=%q unlisted-model=%v %s /olla/%s/%s with endpoints %+v -> status %d", c.Engine, c.Strategy, c.Model, c.Method, c.Prefix, c.Path, c.EPs, resp.StatusCode)
 	contacted := 0
 	for i, e := range c.EPs {
 		n := r.be[i].Count()
@@ -257,7 +288,7 @@ func runCase(c Case) []ev.Violation {
 		if resp.StatusCode >= 200 && resp.StatusCode < 300 {
 			bad("served-without-compatible-endpoint", "%s: 2xx although no healthy endpoint of a compatible type exists; body %q", desc, trunc(body, 120))
 		}
-	} else if contacted == 0 && !(resp.StatusCode >= 300) {
+	} else if contacted == 0 && !(resp.StatusCode >= 300) && !c.Model {
 		bad("2xx-without-backend", "%s: 2xx but no backend was contacted", desc)
 	}
 	if contacted > 1 {
@@ -301,6 +332,12 @@ func genCase(t *rapid.T) Case {
 		c.EPs = rapid.Permutation(eps).Draw(t, "order")
 	}
 	c.Path = rapid.SampledFrom(pathsFor(c.Prefix)).Draw(t, "path")
+	// a quarter of the cases: another model-routing strategy, and a model no endpoint lists
+	if rapid.IntRange(0, 3).Draw(t, "strat") == 0 {
+		c.Strategy = rapid.SampledFrom([]string{"discovery/all/refresh", "discovery/all", "optimistic/all", "discovery/compatible_only/refresh", "optimistic/none"}).Draw(t, "strategy")
+		c.Model = rapid.IntRange(0, 3).Draw(t, "model") > 0
+		c.Method = "POST"
+	}
 	return c
 }
 
